@@ -42,6 +42,21 @@ def _worker(args):
         rep = None
         if getattr(o, "runner", None) is not None:
             return r.to_json()
+        if r.status == "undecided" and r.decls and not getattr(o, "no_unroll", False):
+            # DESIGN 2.9: an undecided obligation is evaluated concretely on the real function over the bounded
+            # enumerator; only a concrete failing input turns it into a violation
+            try:
+                w = framework.enumerate_witness(o, r.decls, seed=int(os.environ.get("VERIF_SEED", "0")))
+            except Exception as e:
+                w = None
+                r.note += " enumerate_witness crashed: %r;" % (e,)
+            if w is not None:
+                r.status = "refuted"
+                r.witness, r.replay = w[0], w[1]
+                for lab in w[1]["failed"]:
+                    r.goals.append(framework.GoalResult(lab, "sat", 0.0, backend="concrete-enumeration", path=0))
+                r.note += " undecided symbolically; failing input found by concrete search over small grids (%d tried)" % w[2]
+            return r.to_json()
         if r.status == "refuted" and r.witness is not None:
             try:
                 rep = framework.replay(o, r.witness)
